@@ -1056,6 +1056,56 @@ def run(pid, tier, replay=None):
         handover.stage_adversarial(chk, quick, rng, pid, cfg_i, keys, nodechk.build_universe, mk,
                                    {"C01": "spend_not_authorised_by_the_owner", "C02": "reward_above_subsidy_plus_fees", "C05": "timestamp_not_later_than_the_parent_s"}[pid])
         sk.restore_cfg()
+    if pid in ("C01", "C05"):
+        # ---- wide shapes: a reward spread over 70 outputs; a spend of 40 of them whose 36th signature does not verify (C01); the node's own
+        #      assembly of a block from 63 pending transactions -- 64 transactions, a count at an octet boundary of the length encoding (C05)
+        from checks.store import blk as blkd_, tx as txd_
+        import skepticoin.consensus as c_w
+        from skepticoin.datatypes import Block as Block_, BlockHeader as BlockHeader_
+        from skepticoin.signing import SECP256k1PublicKey as PK_w
+        cfg_w = sk.Cfg(period=1000, timespan=4, initial_subsidy=10 ** 4, halving=10 ** 6, max_money=10 ** 12)
+        sk.apply_cfg(cfg_w)
+        w_w = sk.World(cfg_w, keys, tag=b"wide")
+        rec_w = ledger_drv.Recorder(w_w, 960000, full=False, snapshots=False)
+        g_w = w_w.make_genesis()
+        rec_w.start(g_w)
+        cbw = {"id": 10, "ins": [{"ref": {"tx": -1, "idx": 0}, "kind": "cbdata", "signer": -1, "cbh": 1, "small": True}],
+               "outs": [{"v": 100, "k": 1}] * 70, "sizeok": True, "mut": ""}
+        d1 = dict(blkd_(1, 0, 1, [cbw]), ts=11)
+        b1_w = w_w.concretise(d1)
+        rec_w.add(b1_w, 11, validated=True, label={"act": "add", "mut": "", "parent": 0, "id": 1})
+        if pid == "C01":
+            good = txd_(21, [(10, i_, 1) for i_ in range(40)], [(4000, 2)])
+            bad = dict(txd_(31, [(10, i_, 1) for i_ in range(40)], [(4000, 2)]), mut="sig_garbage", _owner={35: 1})
+            bad["ins"][35]["signer"] = -1
+            cb2 = lambda bid: {"id": bid * 10, "ins": [{"ref": {"tx": -1, "idx": 0}, "kind": "cbdata", "signer": -1, "cbh": 2, "small": True}],
+                               "outs": [{"v": cfg_w.subsidy(2), "k": 1}], "sizeok": True, "mut": ""}
+            for bid, t_ in ((3, bad), (2, good)):
+                d_ = dict(blkd_(bid, 1, 2, [cb2(bid), {k_: v_ for k_, v_ in t_.items() if k_ != "_owner"}]), ts=12)
+                x_ = w_w.concretise(d_, owners={1: t_.get("_owner", {})})
+                rec_w.add(x_, 12, validated=True, label={"act": "add", "mut": t_.get("mut", ""), "parent": 1, "id": bid})
+        else:
+            pend = []
+            for i_ in range(63):
+                td_ = dict(txd_(100 + i_, [(10, i_, 1)], [(99, 2)]), _owner={0: 1})
+                pend.append(w_w.concretise_tx(td_))
+                w_w.tx_by_abs[100 + i_] = pend[-1]
+            summ_, h_, txs_ = c_w.construct_block_pow_evidence_input(rec_w.cs, pend, PK_w(keys.pub[1]), 12, b"", 1)
+            found_ = None
+            for nonce_ in range(1, 400):
+                summ_, h_, txs_ = c_w.construct_block_pow_evidence_input(rec_w.cs, pend, PK_w(keys.pub[1]), 12, b"", nonce_)
+                sh_ = c_w.construct_summary_hash(summ_, h_)
+                ev_ = c_w.construct_pow_evidence_after_scrypt(sh_, rec_w.cs, summ_, h_, txs_)
+                cand_ = Block_(BlockHeader_(summ_, ev_), txs_)
+                if cand_.hash() < summ_.target:
+                    found_ = cand_
+                    break
+            if found_ is None:
+                return machinery_failure(pid, "no candidate of 64 transactions below its target")
+            rec_w.add(found_, 12, validated=True, assembled=True, label={"act": "assembled", "mut": "", "height": 2, "transactions": len(found_.transactions)})
+        chk.case(("wide", pid), nontrivial=True)
+        judge(chk, [rec_w.trace()], [rec_w], cfg_w, focus)
+        sk.restore_cfg()
     if pid in ("C01", "C02"):
         # ---- the same rules on the node's delivery path: random trees with every alteration class pushed by peers, some of them while the
         #      node's own request for blocks to that peer is still unanswered (the block is unsolicited all the same: in_response_to = 0)
